@@ -13,6 +13,11 @@ structure BkState where
   pubSeq : Nat := 0
   firstSeen : List (Str × String) := []                   -- (receiver id, payload hex): already transmitted once
   lastFirst : List ((Str × Str × Str × String) × Nat × String) := []  -- (receiver, origin, topic, qos) ↦ latest first transmission
+  -- C11 oracle bookkeeping: per connection the packet ids of outbound QoS>0 PUBLISHes not yet acknowledged
+  -- by the client, and whether the connection ever took part in a QoS 2 exchange
+  unacked : List (Nat × List Nat) := []
+  sawQos2 : List Nat := []
+  c11skip : List Nat := []      -- connections whose client acknowledged a packet id that was not in transit
 
 def kvGet (args : List String) (k : String) : Option String :=
   args.findSome? fun a =>
